@@ -41,6 +41,9 @@ def ledger(case, r):
             if a['operand'].shape != b['operand'].shape:
                 problems.append('release %d (%s) has %d values on D and %d on D\'' % (a['index'], a['site'], a['operand'].size, b['operand'].size))
                 continue
+            if a.get('noise_values', a['operand'].size) < a['operand'].size:
+                problems.append('release %d (%s) adds %d noise value(s) to %d statistics: contrasts between cells are released exactly' % (a['index'], a['site'], a['noise_values'], a['operand'].size))
+                continue
             dx = a['operand'] - b['operand']
             if a['kind'] == 'normal':
                 c = float(dx @ dx) / (2 * a['scale'] ** 2)
